@@ -7,7 +7,7 @@ git -C /repo worktree add -q --detach $W HEAD || exit 2
 cd $W
 build() { cmake -G Ninja -B _build -DCMAKE_BUILD_TYPE=RelWithDebInfo >/dev/null 2>&1 && cmake --build _build -j6 >/dev/null 2>&1; }
 demo() { case $DEMO in *.cpp) CC="g++ -std=c++17";; *) CC="gcc -std=gnu99";; esac
-  $CC -O1 -g -I include -I src/cpp $DEMO _build/librtosc-cpp.a _build/librtosc.a -o /tmp/cm/$NAME.demo -lm -lpthread $(grep -o -- '-Wl,--wrap=[a-z_]*' $(dirname $DEMO)/$(basename $DEMO | sed 's/_demo.*/_meta.txt/') 2>/dev/null | sort -u | tr '\n' ' ') 2>/tmp/cm/$NAME.cc.log || { echo "demo build failed"; return 99; }
+  $CC -O1 -g -I include -I src/cpp $DEMO _build/librtosc-cpp.a _build/librtosc.a -o /tmp/cm/$NAME.demo -lm -lpthread $(grep -q -- '--wrap=malloc' $(dirname $DEMO)/$(basename $DEMO | sed 's/_demo.*/_meta.txt/') 2>/dev/null && echo '-Wl,--wrap=malloc,--wrap=calloc,--wrap=realloc,--wrap=free') 2>/tmp/cm/$NAME.cc.log || { echo "demo build failed"; return 99; }
   timeout 20 /tmp/cm/$NAME.demo >/tmp/cm/$NAME.out 2>&1; return $?; }
 build || { echo "RESULT $NAME clean-build-failed"; exit 2; }
 demo; RC0=$?
